@@ -22,11 +22,23 @@ import (
 // came in. The harness is shared with C01 (package race); the oracle here is the C02 inequality over ground truth:
 // signatures really handed out, final proof states by the mint's own state check, the Lightning model's msat ledger.
 
+// verdictT is used for confirmation re-runs inside the verdict functions.
+var verdictT world.T = panicT{}
+
+type panicT struct{}
+
+func (panicT) Fatalf(format string, a ...any) { panic(fmt.Sprintf(format, a...)) }
+func (panicT) Logf(format string, a ...any)   {}
+
 var schedKinds = []string{"swap", "swap", "melt", "melt", "check", "pollmelt", "mint"}
 
 func ledgerVerdict(cs race.Case, r *race.Result) (string, string) {
 	if r.SchedErr != nil {
-		return "C02|sched|scheduler_error", r.SchedErr.Error()
+		if race.SchedErrReproduces(verdictT, cs, r.Choices) {
+			return "C02|sched|scheduler_error", r.SchedErr.Error()
+		}
+		rec.Inconclusive()
+		return "", ""
 	}
 	if r.Panic != "" {
 		return "C02|sched|panic|" + strings.SplitN(r.Panic, ":", 2)[0], r.Panic
